@@ -52,6 +52,7 @@ type qLRef struct {
 	Pad     bool   `json:"pad"`
 	Raw     string `json:"raw"`
 	Unknown bool   `json:"unknown"`
+	Suffix  string `json:"suffix"` // appended to the referenced lease id: an id nobody issued that starts with a real one
 }
 
 type qFilt struct {
@@ -310,6 +311,7 @@ func resolveLease(ref qLRef, results []qRes) string {
 			s = items[ref.Ref[1]].Lease
 		}
 	}
+	s += ref.Suffix
 	if ref.Pad {
 		return " " + s + "\t"
 	}
